@@ -12,6 +12,16 @@ pub fn parse_records_parallel(
     schema: Option<&Schema>,
     string_block: Arc<StringBlock>,
 ) -> Result<RecordSet> {
+    // The counts come straight from the file: the data must be able to hold the
+    // records it announces before a slot is allocated for each of them
+    let max_records = data.len() / (header.record_size as usize).max(1);
+    if header.record_count as usize > max_records {
+        return Err(crate::Error::InvalidHeader(format!(
+            "{} records of {} bytes announced, the data can hold {max_records}",
+            header.record_count, header.record_size
+        )));
+    }
+
     // Create a vector to hold the records
     let records: Arc<Mutex<Vec<Option<Record>>>> =
         Arc::new(Mutex::new(vec![None; header.record_count as usize]));
@@ -94,7 +104,7 @@ fn parse_record_with_schema<R: Read + Seek>(
 
 /// Parse a record without a schema in parallel
 fn parse_record_raw<R: Read + Seek>(cursor: &mut R, header: &DbcHeader) -> Result<Record> {
-    let mut values = Vec::with_capacity(header.field_count as usize);
+    let mut values = Vec::with_capacity((header.field_count as usize).min(4096));
 
     for _ in 0..header.field_count {
         // Without a schema, we assume all fields are 32-bit integers
